@@ -1,0 +1,9 @@
+//go:build verif
+
+package condition
+
+// Exported wrappers used only by the external verification harness (build tag verif).
+
+func VerifMatchesLikePattern(text, pattern string) bool { return matchesLikePattern(text, pattern) }
+
+func VerifIsNilValue(v any) bool { return isNilValue(v) }
